@@ -12,7 +12,7 @@ def wave_array(key, n):
 
 
 ARRAY_KINDS = ('array', 'i64', 'i16', 'f32', 'ro', 'view', 'list')     # modelled as KArray
-GEN_KINDS = ('gen', 'cos2')                                            # modelled as KGen
+GEN_KINDS = ('gen', 'cos2', 'gate', 'notch')                           # modelled as KGen
 
 
 def mk_source(st, key, fs):
@@ -45,6 +45,16 @@ def mk_source(st, key, fs):
     if kind == 'cos2':
         tone = stim.ToneFactory(fs, fs / 7.0, 1.0 + key)
         return _previewed(stim.Cos2EnvelopeFactory(fs, n / fs, (n // 4) / fs, tone), key, n)
+    if kind == 'gate':
+        # a PLAIN gate (not an envelope) that opens after a leading silence, over a running tone: the samples in the
+        # gate depend on how far the carrier has run, i.e. on nothing but the sample index if the gate is chunk-invariant
+        lead = n // 3
+        tone = stim.ToneFactory(fs, fs / 9.0, 1.0 + key)
+        return _previewed(stim.GateFactory(fs, lead / fs, (n - lead) / fs, tone), key, n)
+    if kind == 'notch':
+        # a stateful filter over seeded noise inside a gate: every trial restarts carrier AND filter
+        noise = stim.BroadbandNoiseFactory(fs, 1.0 + key, seed=key + 1)
+        return _previewed(stim.GateFactory(fs, 0, n / fs, stim.NotchFilterFactory(fs, fs / 8.0, 1.33, noise)), key, n)
     raise KeyError(kind)
 
 
@@ -62,6 +72,14 @@ def expected_wave(st, key, fs):
         return np.asarray(src, dtype=float)
     src.reset()
     return np.asarray(src.next(st['len']), dtype=float)
+
+
+def _declared_seconds(case, st, key, fs):
+    """the duration (s) a notification / get_info carries: samples / fs, except that a plain gate reports
+    start_time + duration as a float sum (an ulp away from samples / fs at some rates)"""
+    if st['kind'] in ('gate', 'notch') and st.get('dur') is None:
+        return mk_source(st, key, fs_object(case)).get_duration()
+    return declared_dur(st) / fs
 
 
 def declared_dur(st):
@@ -325,13 +343,13 @@ def _run_impl(case):
             else:
                 t0 = info['t0']
                 s = int(round((t0 - T0) * fs))
-                events.append([kind, kidx[info['key']], s, bool(t0 == T0 + s / fs), float(info['duration']),
+                events.append([kind, kidx.get(info['key'], -1), s, bool(t0 == T0 + s / fs), float(info['duration']),
                                _jsonable(info['metadata']), bool(info['decrement'])])
         return cb
     for kind in ('added', 'removed', 'empty'):
         q.connect(ev(kind), kind)
-    q.connect(lambda info: live[0] and decs.append(kidx[info['key']]), 'decrement')
-    q.connect(lambda info: live[0] and second.append(kidx[info['key']]))     # a second subscriber, default event
+    q.connect(lambda info: live[0] and decs.append(kidx.get(info['key'], -1)), 'decrement')
+    q.connect(lambda info: live[0] and second.append(kidx.get(info['key'], -1)))     # a second subscriber, default event
     static = {}
     try:
         static['bad_event'] = None
@@ -357,7 +375,7 @@ def _run_impl(case):
             if set(inf) != {'source', 'trials', 'requested_trials', 'delays', 'duration', 'metadata'}:
                 bad = f'get_info keys {sorted(inf)}'
             elif inf['trials'] != rem[i] or inf['requested_trials'] != case['stims'][i]['trials'] \
-                    or inf['duration'] != declared_dur(case['stims'][i]) / fs:
+                    or inf['duration'] != _declared_seconds(case, case['stims'][i], i, fs):
                 bad = f'get_info({i}) = trials {inf["trials"]} requested {inf["requested_trials"]} duration {inf["duration"]}'
             if abuse:                      # the returned dict is the caller's
                 inf['trials'] += 7
@@ -635,7 +653,8 @@ def compare(case, res, mo, ntests=0):
                 if not e[3]:
                     return f'op {i} {o}: notified t0 is not exactly on the sample grid'
                 st = case['stims'][e[1]]
-                if e[4] != declared_dur(st) / fs:
+                want_dur = _declared_seconds(case, st, e[1], fs)
+                if e[4] != want_dur:
                     return f'op {i} {o}: notified duration {e[4]!r} is not the declared {declared_dur(st)}/fs'
                 if e[5] != _jsonable(st.get('meta')):
                     return f'op {i} {o}: notified metadata {e[5]!r} is not the queued {st.get("meta")!r}'
